@@ -75,3 +75,35 @@ def analyse(mir_text):
                 res, dt = query(f, b.n, rx)
                 out.append({"function": f.name, "block": b.n, "reset": what, "res": res, "dt": dt, "witness": wres})
     return out
+
+
+# E3e' (part of C19): the global-slot recycler does not treat its own candidates as roots.
+# `GlobalSlotRecycler::recycle` decides which shadowed global slots can be handed out again by walking everything
+# reachable from the global roots EXCEPT the candidates themselves; a candidate that is queued as a root keeps itself
+# (and every other shadowed definition it mentions) alive for ever.  Rule, on the MIR of the real function: every
+# `push_back` of a value taken from the roots slice is preceded, on every path, by the membership test of its index
+# in the candidate set (`HashSet::<usize>::contains`).
+PUSH = re.compile(r"(::|^)push_back(::<.*>)?$")
+CONTAINS = re.compile(r"HashSet::<.*>::contains(::<.*>)?$")
+
+
+def analyse_recycle(mir_text):
+    funcs = mir.parse(mir_text, lambda n: n.endswith("::recycle"))
+    f = None
+    for g in funcs.values():
+        if "GlobalSlotRecycler" in g.args_s:
+            f = g
+    if f is None:
+        raise ValueError("GlobalSlotRecycler::recycle not found in the MIR dump")
+    out = []
+    for b in f.blocks.values():
+        t = b.term
+        if b.cleanup or t.get("kind") != "call" or not PUSH.search(t["callee"].strip()) or len(t["args"]) < 2:
+            continue
+        o = mir.origin(f, t["args"][1])
+        if "slice::Iter<'_, " not in o and "Enumerate<" not in o:
+            continue  # not a value taken from the roots slice
+        wres, _ = query(f, b.n, re.compile(r"$^"))
+        res, dt = query(f, b.n, CONTAINS)
+        out.append({"function": f.name, "block": b.n, "res": res, "witness": wres, "dt": dt})
+    return out
